@@ -54,13 +54,15 @@ func makePeerConnectionFromOffer(sdp *webrtc.SessionDescription,
 	// The remote peer may open more than one data channel; dataChan must be
 	// closed only once (a second close would panic in a pion goroutine and
 	// take the whole server down).
-	var opened sync.Once
+	// The proxy decides on its own side whether the channel opened, and it
+	// only sees it open once our acknowledgement has reached it. Closing the
+	// connection as soon as our side is open can throw that acknowledgement
+	// away, so wait until the proxy is done (it closes the channel) instead.
+	var finished sync.Once
 	pc.OnDataChannel(func(dc *webrtc.DataChannel) {
-		dc.OnOpen(func() {
-			opened.Do(func() { close(dataChan) })
-		})
 		dc.OnClose(func() {
 			dc.Close()
+			finished.Do(func() { close(dataChan) })
 		})
 	})
 	// As of v3.0.0, pion-webrtc uses trickle ICE by default.
